@@ -45,6 +45,39 @@ theorem isDouble_true_ops : ∀ t : CTy, isDouble t = true → doubleOpsOk (rust
   | .ref n, h => by simp [isDouble] at h
   | .ext fb, h => by simp only [rustType]; exact isDouble_true_ops fb (by simpa [isDouble] using h)
 
+/-- the item a setter stores is an element of the field, in a value position and in a key position alike -/
+theorem builderItem_fits : ∀ (key : Bool) (t : CTy), fits (builderItem key t) (rustType key t) = true
+  | key, .prim p => by cases p <;> cases key <;> simp [builderItem, fits, rustType, primName]
+  | key, .optional t => by simp [builderItem, fits, rustType]
+  | key, .list t => by simp [builderItem, fits, rustType]
+  | key, .set t => by simp [builderItem, fits, rustType]
+  | key, .map k v => by simp [builderItem, fits, rustType]
+  | key, .ref n => by simp [builderItem, fits, rustType]
+  | key, .ext fb => by simp only [builderItem, rustType]; exact builderItem_fits key fb
+
+/-- the element types of a collection field's Rust type -/
+def elems : RTy → List RTy
+  | .vec t => [t]
+  | .set t => [t]
+  | .map k v => [k, v]
+  | _ => []
+
+def fieldFits : FieldCfg → RTy → Bool
+  | .list i, .vec t => fits i t
+  | .set i, .set t => fits i t
+  | .map k v, .map a b => fits k a && fits v b
+  | .other, _ => true
+  | _, _ => false
+
+theorem builderField_fits : ∀ t : CTy, fieldFits (builderField t) (rustType false t) = true
+  | .prim p => by cases p <;> simp [builderField, fieldFits]
+  | .optional t => by simp [builderField, fieldFits]
+  | .list t => by simp [builderField, fieldFits, rustType, builderItem_fits false t]
+  | .set t => by simp [builderField, fieldFits, rustType, builderItem_fits true t]
+  | .map k v => by simp [builderField, fieldFits, rustType, builderItem_fits true k, builderItem_fits false v]
+  | .ref n => by simp [builderField, fieldFits]
+  | .ext fb => by simp only [builderField, rustType]; exact builderField_fits fb
+
 /-- the rule before the repair (map values always written as in a value position): a set of maps to doubles is a
 set of something that has no order -/
 def rustTypeOld (key : Bool) : CTy → RTy
